@@ -30,7 +30,21 @@ var repoDir = func() string {
 //
 //	/verif/harness/verifnd/*.go      -> /repo/internal/verifnd/*.go
 //	/verif/harness/<pkgdir>/<f>.go   -> /repo/<pkgdir>/zz_verif_<f>.go
+// droppedHarness: harness files (virtual path -> first compile error) that do not compile against
+// the tree under check, e.g. because a change renamed an unexported field one harness looks at.
+// They are left out of the overlay - the harnesses defined in them are reported INCONCLUSIVE - so
+// that the other harnesses of the package still decide their obligations.
+var droppedHarness = map[string]string{}
+
 func overlayFiles() map[string]string {
+	out := allOverlayFiles()
+	for virt := range droppedHarness {
+		delete(out, virt)
+	}
+	return out
+}
+
+func allOverlayFiles() map[string]string {
 	out := map[string]string{}
 	roots := []string{filepath.Join(verifDir, "harness")}
 	// GOSYM_HARNESS_EXTRA: additional private harness roots (work in progress of one developer)
@@ -69,38 +83,58 @@ type loaded struct {
 }
 
 func loadProgram(pkgDirs []string) (*loaded, error) {
-	ov := map[string][]byte{}
-	for virt, real := range overlayFiles() {
-		b, err := os.ReadFile(real)
+	var pkgs []*packages.Package
+	for attempt := 0; ; attempt++ {
+		ov := map[string][]byte{}
+		for virt, real := range overlayFiles() {
+			b, err := os.ReadFile(real)
+			if err != nil {
+				return nil, err
+			}
+			ov[virt] = b
+		}
+		env := append(os.Environ(), "GOFLAGS=-mod=mod", "GOPROXY=off", "GOSUMDB=off", "GOTOOLCHAIN=local")
+		cfg := &packages.Config{Mode: packages.LoadAllSyntax, Dir: repoDir, Overlay: ov, Env: env}
+		pats := []string{}
+		seen := map[string]bool{}
+		for _, d := range pkgDirs {
+			if !seen[d] {
+				seen[d] = true
+				pats = append(pats, "./"+d)
+			}
+		}
+		sort.Strings(pats)
+		var err error
+		pkgs, err = packages.Load(cfg, pats...)
 		if err != nil {
 			return nil, err
 		}
-		ov[virt] = b
-	}
-	env := append(os.Environ(), "GOFLAGS=-mod=mod", "GOPROXY=off", "GOSUMDB=off", "GOTOOLCHAIN=local")
-	cfg := &packages.Config{Mode: packages.LoadAllSyntax, Dir: repoDir, Overlay: ov, Env: env}
-	pats := []string{}
-	seen := map[string]bool{}
-	for _, d := range pkgDirs {
-		if !seen[d] {
-			seen[d] = true
-			pats = append(pats, "./"+d)
+		nerr, dropped := 0, 0
+		packages.Visit(pkgs, nil, func(p *packages.Package) {
+			for _, e := range p.Errors {
+				nerr++
+				// an error located in a harness file (not in verifnd): drop that file and retry
+				file := e.Pos
+				if k := strings.Index(file, ".go:"); k >= 0 {
+					file = file[:k+3]
+				}
+				if _, isOv := ov[file]; isOv && strings.Contains(filepath.Base(file), "zz_verif_") && attempt < 6 {
+					if _, already := droppedHarness[file]; !already {
+						droppedHarness[file] = e.Msg
+						fmt.Fprintln(os.Stderr, "harness file does not compile against this tree, dropped:", e)
+						dropped++
+					}
+					continue
+				}
+				fmt.Fprintln(os.Stderr, "load error:", e)
+			}
+		})
+		if nerr == 0 {
+			break
 		}
-	}
-	sort.Strings(pats)
-	pkgs, err := packages.Load(cfg, pats...)
-	if err != nil {
-		return nil, err
-	}
-	nerr := 0
-	packages.Visit(pkgs, nil, func(p *packages.Package) {
-		for _, e := range p.Errors {
-			fmt.Fprintln(os.Stderr, "load error:", e)
-			nerr++
+		if dropped == 0 {
+			return nil, fmt.Errorf("%d package load errors", nerr)
 		}
-	})
-	if nerr > 0 {
-		return nil, fmt.Errorf("%d package load errors", nerr)
 	}
 	prog, _ := ssautil.AllPackages(pkgs, ssa.InstantiateGenerics)
 	prog.Build()
